@@ -80,6 +80,13 @@ func (a *c16AggNode) Deliver(net *simnet.Net, m *simnet.Msg) {
 	a.got[m.From] = true
 	a.cnt++
 	s := m.Payload
+	zeroStart := false
+	if a.acc == nil && ctx.Ch.Chance("acc-starts-as-allocated-share", 1, 3) {
+		// the aggregator starts from a share it allocated (all zero) and adds every share it receives to it
+		a.acc = a.ops.alloc()
+		zeroStart = true
+		ctx.Count("probe.aggregation-into-allocated-accumulator", 1)
+	}
 	if a.acc == nil {
 		if ctx.Ch.Bool("acc-by-reference") {
 			a.acc = s
@@ -88,6 +95,9 @@ func (a *c16AggNode) Deliver(net *simnet.Net, m *simnet.Msg) {
 		}
 	} else {
 		form := ctx.Ch.Draw("agg-form", 3)
+		if zeroStart {
+			form = 0
+		}
 		var out any
 		switch form {
 		case 0:
